@@ -106,6 +106,38 @@ def run(v, tier, rng):
             v.violation("output of A;B differs from output(A) ++ output(B) [%s, BITS %d]" % (kind, mode),
                         {"source": srcs[0], "out_whole": cs[0]["out"], "out_parts": [c["out"] for c in cs[1:]], "parts": srcs[1:],
                          "note": "each of the three programs was assembled by a separate process"})
+    # statements that use the same EQU name: what one statement does with the name must not change what the next one gets
+    equ_groups = []
+    for g in range(30 if tier == "quick" else 400):
+        mode = rng.choice([16, 32])
+        r = ("AX", "CX", "BX") if mode == 16 else ("EAX", "ECX", "EBX")
+        nm, val, k = "EQ%d" % g, rng.choice([512, 18, 7, 0x1000, 255]), rng.choice([2, 18, 3])
+        hdr = [("equ", nm, A.num(val))]
+        pool = [("mn", "MOV", [G.reg(r[1]), A.add([("+", ("mul", ("id", nm), [("*", ("num", k))]))])]), ("mn", "MOV", [G.reg(r[0]), A.ident(nm)]), ("mn", "DW", [A.ident(nm)]),
+                ("mn", "ADD", [G.reg(r[2]), A.add([("+", ("mul", ("id", nm), [("/", ("num", 2))]))])]), ("mn", "DD", [A.add([("+", ("mul", ("id", nm), [("%", ("num", 5))])), ("+", ("mul", ("num", 1), []))])]),
+                ("mn", "RESB", [A.add([("+", ("mul", ("id", nm), [("%", ("num", 7))]))])]), ("mn", "MOV", [G.reg(r[1]), G.mem_exp(r[2] if mode == 32 else "BX", None, None, None)]),
+                ("mn", "DB", [A.sum_of([("+", ("id", nm)), ("-", ("id", nm)), ("+", ("num", 9))])])]
+        sts = [rng.choice(pool) for _ in range(rng.randrange(2, 5))]
+        equ_groups.append((mode, hdr, sts))
+    ecases = []
+    for gi, (mode, hdr, sts) in enumerate(equ_groups):
+        ecases.append({"id": "ew%d" % gi, "srcs": [A.p_program(head(mode) + hdr + sts)]})
+        for qi, st in enumerate(sts):
+            ecases.append({"id": "ep%d_%d" % (gi, qi), "srcs": [A.p_program(head(mode) + hdr + [st])]})
+    eres = lib.run_cases(ecases, "c14e")
+    enontriv = 0
+    for gi, (mode, hdr, sts) in enumerate(equ_groups):
+        rs = [eres["ew%d" % gi]] + [eres["ep%d_%d" % (gi, qi)] for qi in range(len(sts))]
+        if any(not r.get("calls") or r["calls"][0].get("panic") for r in rs):
+            continue
+        cs = [r["calls"][0] for r in rs]
+        if any(c["diag"] for c in cs):
+            continue
+        enontriv += 1
+        if cs[0]["out"] != "".join(c["out"] for c in cs[1:]):
+            v.violation("output of A;B differs from output(A) ++ output(B) [statements sharing an EQU name, BITS %d]" % mode,
+                        {"source": A.p_program(head(mode) + hdr + sts), "out_whole": cs[0]["out"], "out_parts": [c["out"] for c in cs[1:]],
+                         "parts": [A.p_program(head(mode) + hdr + [st]) for st in sts]})
     cases = []
     for gi, (mode, seqs, kind) in enumerate(groups):
         whole = [s for q in seqs for s in q]
@@ -143,4 +175,4 @@ def run(v, tier, rng):
             v.tie_broken("correspondence model vs gosk (label-free sequences)", {"source": cases[0]["srcs"][0], "index": k})
     v.cov.update({"evaluations": len(cases) + len(fcases), "distinct_nontrivial": nontriv,
                   "rule": "label-free position-independent sequences (safe instruction forms, DB/DW/DD, RESB; no $, ALIGNB, jumps) in both modes: random pairs/triples, every statement of longer programs alone vs in context, pairs of skeleton forms; non-trivial = groups whose concatenated output is non-empty and undiagnosed",
-                  "samples": [cases[0]["srcs"][0], cases[1]["srcs"][0]], "groups": len(groups), "fresh_process_groups": len(fresh_groups), "fresh_nontrivial": fnontriv, "correspondence_mismatches": len(bad)})
+                  "samples": [cases[0]["srcs"][0], cases[1]["srcs"][0]], "groups": len(groups), "fresh_process_groups": len(fresh_groups), "equ_sharing_groups": enontriv, "fresh_nontrivial": fnontriv, "correspondence_mismatches": len(bad)})
